@@ -41,18 +41,18 @@ PRIM_OWNERS = ('utils', 'thread_local')
 
 # sha256 of ast.dump (docstring stripped) of the primitives that ScopesBase.v models by hand
 PRIM_FINGERPRINTS = {
-    'thread_local_has': '77fa6bf3ffea7565',
-    'thread_local_set': 'e3ccf80e5647c5a5',
-    'thread_local_get': '102f7e5f22f8fbcc',
-    'thread_local_del': 'f2204421b6d906e9',
-    'thread_local_map': 'eda6b85d65bf97eb',
-    'thread_local_push': 'a3306b1d5cc71586',
-    'thread_local_peek': 'f2eca9ce60cc6de6',
-    'thread_local_pop': '5c67e580c3ab00fd',
+    'thread_local_has': '5e0956109fc9534d',
+    'thread_local_set': '78349db3a16c03b3',
+    'thread_local_get': '01155d010f3ba1c4',
+    'thread_local_del': 'e4f7c8a09f17b86c',
+    'thread_local_map': 'de0689326d0a66dd',
+    'thread_local_push': '2e22232c1e0a0eb2',
+    'thread_local_peek': 'aff5310241a92b26',
+    'thread_local_pop': 'f4ee5c4d91de75aa',
 }
 
-HAND_WRITTEN_FINGERPRINTS = {'_detour_stack': 'd32809958e85b523', 'current_mappings': '93960e419a64f110', 'enter_scope': 'cca0423ecb32bab4',
-                             'leave_scope': 'a526e0a0b3a250ca', 'detour': '55531370e2a18398'}
+HAND_WRITTEN_FINGERPRINTS = {'_detour_stack': 'b7f8c4a684be4e1f', 'current_mappings': '5e387196a2195dc3', 'enter_scope': '7500c5fc2dcf6b3d',
+                             'leave_scope': 'c72ee86326603d9b', 'detour': '2ad472612f019603'}
 
 SPEC_FLAGS = ['notify_on_change', 'enable_type_check', 'allow_partial', 'as_sealed', 'allow_writable_accessors',
               'track_origin', 'auto_call_functors']
@@ -95,11 +95,33 @@ def _find_fn(tree, name, cls=None):
 
 
 def fingerprint(fn):
-  f = ast.FunctionDef(name=fn.name, args=fn.args, body=_strip_doc(fn.body), decorator_list=fn.decorator_list,
-                      returns=None, type_comment=None, lineno=0, col_offset=0)
+  """sha256 of the function's AST with the docstring and annotations stripped and the local variables (parameters and
+  assigned names) renamed in order of first occurrence, so that renaming a local is not a change."""
+  import copy
+  f = copy.deepcopy(fn)
+  f.body = _strip_doc(f.body)
+  f.returns = None
+  bound = []
   for a in ast.walk(f):
     if isinstance(a, ast.arg):
       a.annotation = None
+      if a.arg not in bound and a.arg not in ('self', 'cls'):
+        bound.append(a.arg)
+  for n in ast.walk(f):
+    if isinstance(n, ast.Name) and isinstance(n.ctx, ast.Store) and n.id not in bound:
+      bound.append(n.id)
+  declared = set()
+  for n in ast.walk(f):
+    if isinstance(n, (ast.Global, ast.Nonlocal)):
+      declared |= set(n.names)
+  ren = {b: 'v%d' % i for i, b in enumerate(x for x in bound if x not in declared)}
+  for n in ast.walk(f):
+    if isinstance(n, ast.Name) and n.id in ren:
+      n.id = ren[n.id]
+    if isinstance(n, ast.arg) and n.arg in ren:
+      n.arg = ren[n.arg]
+    if isinstance(n, ast.AnnAssign):
+      n.annotation = ast.Constant(value=None)
   return hashlib.sha256(ast.dump(f, annotate_fields=True, include_attributes=False).encode()).hexdigest()[:16]
 
 
@@ -911,14 +933,25 @@ def translate(repo=None):
       not in [ast.dump(s) for s in dinit.body]:
     raise TranslationError('detour: self._tls is no longer a threading.local()')
   keys.add('detour', dconst['_DETOUR_STACK_KEY'], 'k_detour')
-  # the hand-written manager: fingerprints of what Model/Scopes.v detour_enter / detour_exit were written from (reported, not enforced:
-  # the tie for this manager is the correspondence check)
+  # the hand-written manager: pinned by fingerprint (locals renamed apart), like the thread_local primitives
   dfp = {}
   for m in ('_detour_stack', 'current_mappings', 'enter_scope', 'leave_scope'):
     dfp[m] = fingerprint(_find_fn(dt, m, '_DetourContext'))
   dfp['detour'] = fingerprint(_find_fn(dt, 'detour'))
   info['hand_written_fingerprints'] = dfp
-  info['hand_written_changed'] = sorted(k for k in dfp if HAND_WRITTEN_FINGERPRINTS.get(k) != dfp[k])
+  changed = sorted(k for k in dfp if HAND_WRITTEN_FINGERPRINTS.get(k) != dfp[k])
+  info['hand_written_changed'] = changed
+  if changed:
+    raise TranslationError('class_detour.%s changed (fingerprints %s): Model/Scopes.v detour_enter / detour_exit model them by hand'
+                           % ('/'.join(changed), {k: dfp[k] for k in changed}))
+  # pg.apply_wrappers is a detour from each wrapped class to its wrapper (Model/Scopes.v gives CApplyWrappers the detour semantics)
+  cw = _parse(P('symbolic/class_wrapper.py'))
+  aw = _find_fn(cw, 'apply_wrappers')
+  if ast.dump(_strip_doc(aw.body)[-1]) != (
+      "Return(value=Call(func=Attribute(value=Name(id='detouring', ctx=Load()), attr='detour', ctx=Load()), args=[ListComp(elt=Tuple(elts=["
+      "Attribute(value=Name(id='c', ctx=Load()), attr='sym_wrapped_cls', ctx=Load()), Name(id='c', ctx=Load())], ctx=Load()), generators=["
+      "comprehension(target=Name(id='c', ctx=Store()), iter=Name(id='wrapper_classes', ctx=Load()), ifs=[], is_async=0)])], keywords=[]))"):
+    raise TranslationError('apply_wrappers no longer returns detouring.detour([(c.sym_wrapped_cls, c) for c in wrapper_classes])')
   hb = _parse(P('hyper/base.py'))
   hc = _module_consts(hb)
   if '_TLS_KEY_DYNAMIC_EVALUATE_FN' not in hc:
